@@ -263,7 +263,7 @@ def class_emissions(repo: Repo, relsfx: str, method: str = "render", named: Any 
         if fi is None:
             continue
         try:
-            flow = block_flow(repo, ci.name, relsfx, fcn, frel, {}, keep=tuple(n for n in m.cls(fcn, frel).methods) + ("message_field_name", "message_field_type", "message_field_default_value"))
+            flow = block_flow(repo, ci.name, relsfx, fcn, frel, {}, keep=tuple(sorted({n for k_ in m.mro(m.cls(fcn, frel)) for n in k_.methods if n.startswith(("format_", "formart_"))} | set(m.cls(fcn, frel).methods))) + ("message_field_name", "message_field_type", "message_field_default_value"))
             paths = flow.run(fi.node, {"self": V("self")})
         except Inconclusive:
             continue
@@ -304,7 +304,7 @@ def class_emissions(repo: Repo, relsfx: str, method: str = "render", named: Any 
     return out
 
 
-def formatter_returns(repo: Repo, relsfx: str, cls: str, meth: str) -> List[str]:
+def formatter_returns(repo: Repo, relsfx: str, cls: str, meth: str, braces: bool = False, inline: Optional[Callable[[str], bool]] = None) -> List[str]:
     """Texts a formatter method can return (one per path), holes replaced by
     the source-like rendering of their values; `format_*` methods stay
     opaque (they are the vocabulary provenance is judged in), private helpers
@@ -316,12 +316,12 @@ def formatter_returns(repo: Repo, relsfx: str, cls: str, meth: str) -> List[str]
     fi = m.lookup(c, meth)
     if fi is None:
         raise Inconclusive(f"{cls}.{meth} vanished")
-    flow = compiler_flow(repo, cls, relsfx, module_funcs=True, inline=lambda name, fn: not name.startswith("format_"), max_depth=8)
+    flow = compiler_flow(repo, cls, relsfx, module_funcs=True, inline=(lambda name, fn: inline(name)) if inline is not None else (lambda name, fn: not name.startswith("format_")), max_depth=8)
     out: List[str] = []
     for p_ in flow.run(fi.node, {"self": V("self")}):
         if p_.done != "return" or p_.ret is None:
             continue
-        t = tpl_shape(p_.ret, lambda x: show(x))
+        t = tpl_shape(p_.ret, (lambda x: "{" + show(x) + "}") if braces else (lambda x: show(x)))
         if t is None:
             raise Inconclusive(f"{cls}.{meth} returns `{show(p_.ret)}`: not a text")
         if t not in out:
